@@ -91,8 +91,8 @@ StrokeAttrs(n_) ==
     \o Opt(115, "stroke-linecap", {"butt", "round", "square"}, 45)
     \o Opt(116, "stroke-linejoin", {"miter", "round", "bevel"}, 45)
     \o Opt(117, "stroke-miterlimit", {1, 4, 10}, 20)
-    \o Opt(118, "stroke-dasharray", { <<2>>, <<2, 1>>, <<3, 1, 1>>, <<1, 1, 2, 2>>, <<>> }, 30)
-    \o Opt(119, "stroke-dashoffset", {0, 1, -1, 5}, 20)
+    \o Opt(118, "stroke-dasharray", { <<2>>, <<2, 1>>, <<3, 1, 1>>, <<1, 1, 2, 2>>, <<>> }, IF Focus = "stroke" THEN 45 ELSE 30)
+    \o Opt(119, "stroke-dashoffset", {0, 1, -1, 5}, IF Focus = "stroke" THEN 45 ELSE 20)
     \o Opt(120, "stroke-opacity", {0, 1, 2, -1}, 20)
 
 (* the same property may be given twice: as attribute AND in style (style wins) *)
